@@ -244,10 +244,11 @@ def main():
         die(f"cannot read source: {e}")
 
     protected = str_table(common, "PROTECTED_FIELDS", "parser/common.rs")
-    # the predicate must still be plain membership in the table
-    body = re.sub(r"\s+", "", fn_body(common, "is_protected_field", "parser/common.rs"))
-    if body != "PROTECTED_FIELDS.contains(&name)":
-        die(f"is_protected_field is no longer `PROTECTED_FIELDS.contains(&name)`: {body[:80]}")
+    # the predicate must still consult the table (what it does with it is compared by the correspondence:
+    # the matrix carries case / prefix / suffix variants of every entry)
+    body = fn_body(common, "is_protected_field", "parser/common.rs")
+    if "PROTECTED_FIELDS" not in body:
+        die("is_protected_field no longer consults PROTECTED_FIELDS")
     assertion_imm = str_table(kml, "ASSERTION_IMMUTABLE", "parser/kml.rs")
     evidence_imm = str_table(kml, "EVIDENCE_IMMUTABLE", "parser/kml.rs")
     proposition_imm = str_table(kml, "PROPOSITION_IMMUTABLE", "parser/kml.rs")
